@@ -103,10 +103,87 @@ def path_to_steps(acts, quiescent_after=None, epilogue=True):
     return steps
 
 
+def count_connects(steps):
+    n = 0
+    for st in steps:
+        if st.get("do") == "Connect":
+            n += 1
+        for a in st.get("anchored", []) or []:
+            if a["step"].get("do") == "Connect":
+                n += 1
+    return n
+
+
+def probe_epilogue(sched):
+    """Property-level end game appended to every schedule: whatever happened before, once every worker has been replaced
+    and polled, every connection has finished, the server has been resumed and the back-off time has passed, ONE MORE
+    client per listener must be dispatched (C03/C05/C08 at the final quiescent state: no listener stranded, no wake-up
+    lost, service resumed).  All of it is legal environment behaviour in any state (the engine skips a Replace nobody
+    asked for; finishing a connection early only makes it finish as soon as it is served)."""
+    cfg, steps = sched["cfg"], sched["steps"]
+    w, nl = cfg["W"], len(cfg["listeners"])
+    nconn = count_connects(steps)
+    out = [{"do": "Settle"}]
+    # one client per listener BEFORE the resume: if the server is (still) paused they must stay in the backlog
+    out += [{"do": "Connect", "l": l} for l in range(nl)] + [{"do": "Settle"}]
+    nconn += nl
+    if any(st.get("do") == "Kill" or any(a["step"].get("do") == "Kill" for a in st.get("anchored", []) or []) for st in steps):
+        out += [{"do": "Replace", "i": i} for i in range(w)] + [{"do": "Settle"}]
+    out += [{"do": "WorkerPoll", "i": i} for i in range(w)]
+    out += [{"do": "Finish", "c": c} for c in range(nconn)]
+    out += [{"do": "Settle"}, {"do": "Cmd", "x": "Resume"}, {"do": "Advance", "ms": 600}, {"do": "Settle"}]
+    out += [{"do": "Connect", "l": l} for l in range(nl)]
+    out += [{"do": "Settle"}] + [{"do": "WorkerPoll", "i": i} for i in range(w)] + [{"do": "Settle"}]
+    return out
+
+
+def edge_class(g, ei, cache):
+    """Transition class of a model edge: the action label together with the accept thread's mode in the source state
+    (paused, back-off timers, registrations, availability bits, handles, waker queue head).  A quick-tier sample of the
+    edge cover must contain every class at least once, so that rare combinations (a command consumed while a listener is
+    in back-off, a notification for a removed handle, ...) are always replayed on the real code."""
+    f, act, _t = g.edges[ei]
+    m = cache.get(f)
+    if m is None:
+        sv = json.loads(f)[0]
+        wq = sv[20] if len(sv) > 20 else []
+        m = json.dumps([sv[1], sv[5], sv[6], sv[7], sv[8], sv[9], sv[11], [x[0] for x in wq][:2]], sort_keys=True)
+        cache[f] = m
+    return (act.get("n"), act.get("x"), act.get("i"), act.get("l"), m)
+
+
+def stratified_sample(ctx, g, paths, max_paths):
+    """All transition classes first (greedy set cover over the paths), then a seeded random fill."""
+    cache = {}
+    pclasses = [set(edge_class(g, ei, cache) for ei in p) for p in paths]
+    todo = set().union(*pclasses) if pclasses else set()
+    nclasses = len(todo)
+    order = list(range(len(paths)))
+    ctx.rng.shuffle(order)
+    chosen = []
+    # cheap greedy: repeatedly take the path that covers most uncovered classes among a random window
+    remaining = set(order)
+    while todo and len(chosen) < max_paths and remaining:
+        window = ctx.rng.sample(sorted(remaining), min(len(remaining), 400))
+        best = max(window, key=lambda k: len(pclasses[k] & todo))
+        if not pclasses[best] & todo:
+            # the window has nothing new: scan everything once
+            best = max(remaining, key=lambda k: len(pclasses[k] & todo))
+            if not pclasses[best] & todo:
+                break
+        chosen.append(best)
+        remaining.discard(best)
+        todo -= pclasses[best]
+    fill = vlib.sample(ctx.rng, sorted(remaining), max(0, max_paths - len(chosen)))
+    ctx.cov["transition_classes"] = ctx.cov.get("transition_classes", 0) + nclasses
+    ctx.cov["transition_classes_replayed"] = ctx.cov.get("transition_classes_replayed", 0) + (nclasses - len(todo))
+    return [paths[k] for k in chosen + fill]
+
+
 def schedules_from_graph(ctx, g, consts, max_paths=None):
     paths, covered, total = vlib.path_cover(g, ctx.rng)
     if max_paths and len(paths) > max_paths:
-        paths = vlib.sample(ctx.rng, paths, max_paths)
+        paths = stratified_sample(ctx, g, paths, max_paths)
         covered = len({ei for p in paths for ei in p})
     scheds = []
     for p in paths:
@@ -268,7 +345,7 @@ PROP_OF_PRED = lambda pred: pred.split("_")[1] if pred and pred.startswith("T_")
 
 def run_check(ctx, *, design, edge_cfgs, negs, invariants, corpus, max_paths_quick=400, max_paths_thorough=6000,
               thorough_design=(), live=(), neg_live=(), nontrivial=None, signature=None, rule="", random_flavour="core",
-              random_quick=150, random_thorough=4000):
+              random_quick=150, random_thorough=4000, probe=True):
     """design: configs checked exhaustively by TLC (must hold); edge_cfgs: subset whose state graph is turned into
     schedules; negs: {cfg: [expected predicates]} (each also yields a counterexample schedule); invariants: the
     T_* predicates of AcceptDispatchTrace that decide this property; corpus: corpus files to replay."""
@@ -306,7 +383,14 @@ def run_check(ctx, *, design, edge_cfgs, negs, invariants, corpus, max_paths_qui
             scheds.append(s)
     scheds += load_corpus(corpus)
     if random_flavour:
-        scheds += random_schedules(ctx.rng, random_quick if ctx.quick else random_thorough, random_flavour)
+        flavours = [random_flavour] if isinstance(random_flavour, str) else list(random_flavour)
+        for fl in flavours:
+            scheds += random_schedules(ctx.rng, (random_quick if ctx.quick else random_thorough) // len(flavours), fl)
+    if probe:
+        for sch in scheds:
+            if not sch.get("probed"):
+                sch["steps"] = list(sch["steps"]) + probe_epilogue(sch)
+                sch["probed"] = True
     accepted, bad, runs = replay_and_validate(ctx, scheds, invariants, ctx.prop.lower())
     ctx.cov["traces_validated_against_impl"] += accepted
     for (i, rec, pred) in bad:
